@@ -600,6 +600,26 @@ func TestC02(t *testing.T) {
 	if !run.Replaying() {
 		run.Require("restart|deadFirst=true", "restart|deadFirst=false")
 	}
+	for i := 0; i < run.Pick(16, 800); i++ {
+		id := fmt.Sprintf("alone/%d", i)
+		if !run.Mine(i) || !run.Want(id) {
+			continue
+		}
+		run.Journal(id, "")
+		rng := run.RNG(id)
+		var res []*c01Result
+		err := Bubble(t, func() { res = runC02Alone(run, run.Seed()*149+int64(i), i, rng) })
+		if err != nil {
+			res = append(res, &c01Result{"C02/bubble", err.Error()})
+		}
+		run.Eval(1)
+		for _, r := range res {
+			run.Violation(id, r.Key, r.What, map[string]any{"case": i})
+		}
+	}
+	if !run.Replaying() {
+		run.Require("alone|never-had-peers", "alone|peers-long-dead")
+	}
 	run.Complete()
 	if run.Violations() > 0 {
 		t.Errorf("%d violation(s)", run.Violations())
@@ -617,4 +637,95 @@ func countAliveAbout(q []memberlist.VerifQueuedMsg, node string) int {
 		}
 	}
 	return n
+}
+
+// runC02Alone: the accusation reaches the node while it has nobody to gossip to - it has just (re)started and knows
+// only itself, or every peer it knew has been dead for longer than GossipToTheDeadTime. It refutes all the same;
+// the refutation has to survive the idle gossip rounds and go out as soon as a peer is known, otherwise the
+// accusation is never overridden.
+func runC02Alone(run *Run, seed int64, caseNo int, rng *rand.Rand) (out []*c01Result) {
+	fail := func(key, f string, a ...any) {
+		out = append(out, &c01Result{"C02/alone/" + key, fmt.Sprintf(f, a...)})
+	}
+	mode := []string{"never-had-peers", "peers-long-dead"}[caseNo%2]
+	rig, err := NewRig(RigOpts{Seed: seed, Spec: NodeSpec{Name: "V", IP: "10.9.9.9", Mutate: func(cf *memberlist.Config) {
+		cf.ProbeInterval = noProbe
+		cf.PushPullInterval = 0
+		cf.GossipInterval = 200 * time.Millisecond
+		cf.GossipToTheDeadTime = 2 * time.Second
+	}}})
+	if err != nil {
+		fail("harness/create", "%v", err)
+		return
+	}
+	defer rig.Close()
+	x := rig.AddPeer("x", "10.9.1.1", 7946)
+	if mode == "peers-long-dead" {
+		rig.Introduce(x, 1)
+		Settle(time.Millisecond)
+		x.Send(Enc(TDead, &WDead{Incarnation: 1, Node: "x", From: "x"}))
+		Settle(5 * time.Second) // beyond GossipToTheDeadTime, broadcasts about x drained
+	}
+	Settle(2 * time.Second) // the node's own first announcement has used up its transmissions (nobody to send to: it stays)
+	m := rig.V.ML()
+	own := rig.V.Record("V")
+	if own == nil {
+		fail("harness/no-self", "no own record")
+		return
+	}
+	before := len(x.Received())
+	acc := own.Incarnation + uint32(rng.Intn(3))
+	kind := []string{"suspect", "dead"}[rng.Intn(2)]
+	if kind == "suspect" {
+		x.Send(Enc(TSuspect, &WSuspect{Incarnation: acc, Node: "V", From: "x"}))
+	} else {
+		x.Send(Enc(TDead, &WDead{Incarnation: acc, Node: "V", From: "x"}))
+	}
+	Settle(time.Millisecond)
+	after := rig.V.Record("V")
+	if after == nil || after.Incarnation <= acc || after.State != memberlist.StateAlive {
+		fail("refute/incarnation", "accused (%s) at incarnation %d while alone; own record now %s", kind, acc, recString(after))
+		return
+	}
+	newInc := after.Incarnation
+	idle := time.Duration(1+rng.Intn(5)) * time.Second
+	Settle(idle) // 5-25 gossip rounds with nobody to gossip to
+	run.Cell("alone", mode)
+	queuedHas := func() bool {
+		for _, q := range m.VerifQueued() {
+			var a WAlive
+			if len(q.Msg) > 1 && q.Msg[0] == TAlive && mpDecode(q.Msg[1:], &a) == nil && a.Node == "V" && a.Incarnation == newInc {
+				return true
+			}
+		}
+		return false
+	}
+	sentTo := 0
+	for _, p := range x.Received()[before:] {
+		for _, l := range p.Info.Leaves {
+			var a WAlive
+			if l.Type == TAlive && mpDecode(l.Body, &a) == nil && a.Node == "V" && a.Incarnation == newInc {
+				sentTo++
+			}
+		}
+	}
+	if sentTo == 0 && !queuedHas() {
+		fail("refutation-discarded", "the node refuted a %s accusation (incarnation %d -> %d) while it had nobody to gossip to (%s); %v of idle gossip rounds later the alive message with incarnation %d is neither queued any more nor has it been sent to anyone", kind, acc, newInc, mode, idle, newInc)
+		return
+	}
+	// a peer becomes known: the refutation must reach it
+	rig.Introduce(x, 3)
+	Settle(3 * time.Second)
+	for _, p := range x.Received()[before:] {
+		for _, l := range p.Info.Leaves {
+			var a WAlive
+			if l.Type == TAlive && mpDecode(l.Body, &a) == nil && a.Node == "V" && a.Incarnation == newInc {
+				sentTo++
+			}
+		}
+	}
+	if sentTo == 0 {
+		fail("refutation-never-gossiped", "the node refuted a %s accusation (incarnation %d -> %d) while it had nobody to gossip to (%s); a peer became known %v later and in the next 3 s it received no alive message about the node with incarnation %d", kind, acc, newInc, mode, idle, newInc)
+	}
+	return
 }
